@@ -9,10 +9,12 @@
 
    Proved for EpsilonGreedy (sum, count, mean), UCB1 (sum, count, mean, N, bound) and Thompson Sampling
    without binarizer (Beta parameters), for all histories; the Softmax formula is proved for the
-   recomputation step that every call ends with.  ..._partial: Popularity's normalisation and the request
-   pattern of the random draws are covered by the correspondence run only (binarizers: see C14). *)
+   recomputation step that every call ends with.  Popularity: after every fit / partial_fit the expectation
+   is the arm's share mean/sum-of-means of the raw means of the statistics (uniform when all are 0).
+   ..._partial: the request pattern of the random draws is covered by the correspondence run only (binarizers:
+   see C14). *)
 From Coq Require Import List ZArith Bool QArith Qcanon.
-From MW Require Import Num Assoc Rng CF CFInv CFSpec QcInst.
+From MW Require Import Num Assoc Rng CF CFInv CFSpec QcInst PopSpec.
 Import ListNotations.
 
 Theorem C01_epsilon_greedy_running_mean :
@@ -86,3 +88,21 @@ Proof.
   - split; [simpl; intuition discriminate|]. split; [reflexivity|]. split; [reflexivity|].
     apply Qc_is_canon. reflexivity.
 Qed.
+
+Theorem C01_popularity_partial_fit_shares :
+  forall (R A : Type) (N : Num R) (aeqb : A -> A -> bool) (s : @cf R A) (ds : list A) (rs : list R),
+  c_kind s = KPopularity ->
+  let x := set_trained aeqb (cf_parallel_fit N aeqb s ds rs) ds true in
+  let raw := map (fun kv => (fst kv, raw_mean N (aget_d aeqb (armst0 N) (c_stats x) (fst kv)))) (c_exp x) in
+  c_exp (cf_partial_fit N aeqb s ds rs) = shares N (length (c_arms x)) raw (pysum N (avals raw)).
+Proof. exact @popularity_partial_fit_expectations. Qed.
+Print Assumptions C01_popularity_partial_fit_shares.
+
+Theorem C01_popularity_fit_shares :
+  forall (R A : Type) (N : Num R) (aeqb : A -> A -> bool) (s : @cf R A) (ds : list A) (rs : list R),
+  c_kind s = KPopularity ->
+  let s1 := set_pyfloat (reset_status (set_exp (reset_sums N s) (areset (c_exp s) (zero N)))) false in
+  let x := set_trained aeqb (cf_parallel_fit N aeqb s1 ds rs) ds false in
+  c_exp (cf_fit N aeqb s ds rs) = shares N (length (c_arms x)) (c_exp x) (pysum N (avals (c_exp x))).
+Proof. exact @popularity_fit_expectations. Qed.
+Print Assumptions C01_popularity_fit_shares.
